@@ -44,6 +44,9 @@ REQUIRED_PDF = [PP + n for n in [
     "mode_tables", "modeBlendQ_pdf", "num_is_pdf", "pdf_channel_near", "pdf_alpha_near", "multiply_num_is_pdf",
     "multiply_channel_near", "pdf_unified_near", "pdf_componentAlpha_near",
     "specPixel_nomask", "pdf_nomask_specPixel", "multiply_nomask_specPixel",
+    # Props/C01PdfPixel.lean: the whole request (flags, regenerated optimize_operator, mask elision, fetch, combiner, store)
+    "blend_modes_not_replaced", "pdf_unifiedPixel_mask_elision", "compositePixel_pdf", "multiply_unified_correct",
+    "multiply_componentAlpha_correct", "multiplyUnifiedPixel_mask_elision", "compositePixel_multiply",
 ]]
 
 RULE = ("1-row composites of 1..19 pixels through pixman_image_composite32, once per implementation chain (default; "
@@ -57,7 +60,7 @@ RULE = ("1-row composites of 1..19 pixels through pixman_image_composite32, once
 
 def run(ctx):
     broken = ctx.lean_obligations("Pixman.Props.C01", REQUIRED + REQUIRED_PDF + C01float.REQUIRED_FLOAT,
-                                  extra_modules=["Pixman.Props.C01Float", "Pixman.Props.C01Pdf"])
+                                  extra_modules=["Pixman.Props.C01Float", "Pixman.Props.C01Pdf", "Pixman.Props.C01PdfPixel"])
     quick = ctx.tier == "quick"
     findings = cc.run_streams(ctx, 0, 60000 if quick else 150000, 16 if quick else 64)
     ctx.cov["rule"] = RULE
